@@ -19,6 +19,7 @@ import (
 type c05cfg struct {
 	Mem       string
 	KV        bool
+	Rev       bool
 	Delta     bool
 	Keys      int
 	Epochs    int
@@ -34,8 +35,9 @@ func runC05(c *rt.C) {
 	r := c.Rng
 	cfg := c05cfg{
 		Mem:       memModes()[c.Index%3],
-		KV:        (c.Index/3)%2 == 1,
-		Delta:     (c.Index/6)%2 == 1,
+		KV:        (c.Index/3)%3 == 1,
+		Rev:       (c.Index/3)%3 == 2,
+		Delta:     (c.Index/9)%2 == 1 || c.Index%2 == 1 && c.Index%9 > 5,
 		Keys:      pick(r, 0, 1, 8, 60, 400, 3000),
 		Epochs:    2 + r.Intn(6),
 		StoreConc: pick(r, 1, 2, 4, 16),
@@ -53,7 +55,7 @@ func runC05(c *rt.C) {
 	}
 	nitro.DiskBlockSize = cfg.Block
 	defer func() { nitro.DiskBlockSize = 512 * 1024 }()
-	db := OpenDB(DBOpt{Mem: cfg.Mem, KV: cfg.KV, Delta: cfg.Delta})
+	db := OpenDB(DBOpt{Mem: cfg.Mem, KV: cfg.KV, Rev: cfg.Rev, Delta: cfg.Delta})
 	nk := cfg.Keys
 	if nk == 0 {
 		nk = 1
@@ -180,7 +182,7 @@ func runC05(c *rt.C) {
 	c.Sample(witness)
 	// the restored instance keeps behaving like a set (C01-C03 continue on it)
 	if !c.Failed() {
-		h2 := &Hist{DB: fresh, Model: NewModel(), NKeys: nk, Versions: map[int]int{}}
+		h2 := &Hist{DB: fresh, Model: fresh.NewModel(), NKeys: nk, Versions: map[int]int{}}
 		for _, e := range target.Want {
 			h2.Model.live[e.Key] = e.Item
 		}
